@@ -65,7 +65,12 @@ def run(ctx):
     common.build_and_audit(ctx, PROP_MODS, gen=lambda c: gen_tables.generate(["ExceptionTree", "ParserTables"]))
     rng = ctx.rng
     atoms = gens.ATOMS + ["{", "}", "{0}", "%s", "\\", "\"", "\x00", "é", "ı", "’", "＇", "\n", "\t"]
-    texts = list(gens.atom_sequences(2, atoms))
+    # "the same string always gives the same outcome" whatever was parsed before: every corpus filter is first parsed in other LETTER CASES
+    # (identifiers and function names are case-sensitive, keywords are not), then as written — all in this one process
+    texts = []
+    for f in list(gens.VALID_FILTERS) + gens.KEYWORD_FILTERS:
+        texts += [f.upper(), f.title(), f.swapcase()]
+    texts += list(gens.atom_sequences(2, atoms))
     texts += list(gens.atom_sequences(4 if ctx.thorough else 3, gens.ATOMS_SMALL))
     for f in gens.VALID_FILTERS:
         texts.append(f)
@@ -109,6 +114,17 @@ def run(ctx):
     if nondet:
         ctx.broken.append(f"same string gave two different outcomes: {nondet[0]!r}")
         ctx.diffs += [("determinism", t, "differs", "same") for t in nondet]
+    # "the same string always gives the same outcome": the corpus filters, parsed here AFTER everything above (incl. their own re-spellings in other
+    # letter cases), must give what each gives in a process of its own in which nothing was parsed before
+    import checks.c20 as c20
+    corpus = list(dict.fromkeys(list(gens.VALID_FILTERS) + gens.KEYWORD_FILTERS))
+    fresh = c20.fresh_process_outcomes(corpus)
+    hist_diff = [(t, guarded_parse(t), fresh[t]) for t in corpus]
+    hist_diff = [(t, a, b) for t, a, b in hist_diff if a != b]
+    ctx.evaluations += len(corpus)
+    ctx.note(f"corpus after the run vs each filter in a fresh process: {len(corpus)} filters, {len(hist_diff)} differ")
+    if hist_diff:
+        ctx.broken.append(f"the same string gives different outcomes depending on what was parsed before: {hist_diff[0][0]!r} gives {hist_diff[0][2][:80]} in a fresh process but {hist_diff[0][1][:80]} after other inputs")
     # long repetitive inputs: outcome class only, under a per-case time budget
     longs = long_inputs(ctx)
     def model_class(ans):
@@ -124,6 +140,10 @@ def run(ctx):
 
     def search(ctx):
         found = []
+        for t, a, b in hist_diff[:20]:
+            found.append({"property": "C10", "input": t, "in_a_fresh_process": b[:400], "after_other_inputs_in_one_process": a[:400],
+                          "why": "the same string does not always give the same outcome: it depends on what was parsed earlier in the process",
+                          "signature": "C10:history:" + t[:30], "replay": "parse the case re-spellings (upper / title / swapcase) of the corpus, then this string; compare with a fresh process"})
         cand = [c for (n, c, r, m) in ctx.diffs] or (texts + longs)
         for t in cand[:20000]:
             r = guarded_parse(t, None, None, tree=len(t) < 2000)
